@@ -45,13 +45,16 @@ func subsetGlyphs(f *sfnt.Font) []glyph.ID {
 	return res
 }
 
-var layoutTexts = []string{"ABC fi fl", "AB BA AC fifl", "Hello, World! 0123", "ffi AVATAR To.", "ABCDT BAcVo abc abd abe ooTe"}
+var layoutTexts = []string{"ABC fi fl", "AB BA AC fifl", "Hello, World! 0123", "ffi AVATAR To.", "ABCDT BAcVo abc abd abe ooTe",
+	// over the glyphs 1..6 = " ABCDf" of the catalogue fonts
+	" A A  AAA   A AA", "A  A CA DB fA A ", "  AA  A"}
 
 // a glyph sequence for gtab.Context.Apply
 func applySeq(f *sfnt.Font, variant int) []glyph.Info {
 	n := f.NumGlyphs()
 	// (glyphs 2..5 = A..D, 23 T, 24 V, 25 o, 13..16 = a..d in the constructed fonts)
-	base := [][]int{{2, 3, 6, 7, 6, 8, 2, 4, 3, 2, 11, 5}, {2, 3, 4, 5, 23, 3, 2, 15, 24, 25, 13, 14, 15, 13, 14, 16}, {36, 37, 73, 76, 73, 79, 3, 36, 57}}[variant%3]
+	base := [][]int{{2, 3, 6, 7, 6, 8, 2, 4, 3, 2, 11, 5}, {2, 3, 4, 5, 23, 3, 2, 15, 24, 25, 13, 14, 15, 13, 14, 16}, {36, 37, 73, 76, 73, 79, 3, 36, 57},
+		{1, 2, 1, 2, 2, 1, 1, 1, 2, 2, 2, 1, 4, 1, 5, 2, 3, 6, 1, 2}, {1, 1, 2}}[variant%5]
 	var seq []glyph.Info
 	for _, g := range base {
 		if g < n {
@@ -188,7 +191,7 @@ func okGsubApply(f *sfnt.Font) bool { return f.Gsub != nil }
 func opGsubApply(f *sfnt.Font) []any {
 	ctx := gtab.NewContext(f.Gsub.LookupList, f.Gdef, allLookups(f.Gsub.LookupList))
 	var res []any
-	for v := 0; v < 3; v++ {
+	for v := 0; v < 5; v++ {
 		out := ctx.Apply(applySeq(f, v))
 		res = append(res, append([]glyph.Info(nil), out...))
 	}
@@ -200,7 +203,7 @@ func okGposApply(f *sfnt.Font) bool { return f.Gpos != nil }
 func opGposApply(f *sfnt.Font) []any {
 	ctx := gtab.NewContext(f.Gpos.LookupList, f.Gdef, allLookups(f.Gpos.LookupList))
 	var res []any
-	for v := 0; v < 3; v++ {
+	for v := 0; v < 5; v++ {
 		out := ctx.Apply(applySeq(f, v))
 		res = append(res, append([]glyph.Info(nil), out...))
 	}
